@@ -2,7 +2,7 @@ SPECIFICATION Spec
 CONSTANTS
   InitSpecs <- SpecsU
   SpecNames <- N5
-  SpecREs <- RE2
+  SpecREs <- RE0
   OpSpecs = {}
   OpTexts = {}
   MaxOps = 0
